@@ -14,4 +14,5 @@ import (
 	_ "verif/props/c10"
 	_ "verif/props/c11"
 	_ "verif/props/c12"
+	_ "verif/props/c13"
 )
